@@ -77,6 +77,9 @@ func genRun(t *rapid.T, p pgen.Prog, seg, head uint64) runSpec {
 	if r.Prod && r.Stop == 0 && r.Final == 0 {
 		r.Final = head - 1 // an unbounded production request cannot be planned without a final block
 	}
+	if r.Final > 0 && r.Final < head && rapid.IntRange(0, 2).Draw(t, "nonfinaltail") == 0 {
+		r.TailLag = rapid.Uint64Range(1, 3).Draw(t, "taillag")
+	}
 	if rapid.Bool().Draw(t, "steer") {
 		n := rapid.IntRange(2, 6).Draw(t, "norder")
 		for i := 0; i < n; i++ {
@@ -197,6 +200,7 @@ func TestC01(t *testing.T) {
 	r.Rule = "rapid: generated program (2..7+ modules: maps incl. sparse/skip-empty, stores of every kind read in get and deltas mode, block indexes with filtered modules, clock-only and params-only modules, initial blocks straddling segment boundaries) x 1..3 requests run in order on one cache directory (mode, output module, start, stop or unbounded, segment size 2..7, 1..4 workers, final block unknown/below/inside/above, steered job completion order); each run compared with the single sequential execution L (dev mode, empty cache, one huge segment): strictly increasing, every delivered block equal to L's (id, payload), omissions only below the hand-off in production mode with empty payload, final stores typed-equal; non-trivial = the run scheduled >=2 segment jobs or served >=1 block from cached outputs, and the output depends on a store"
 	rapid.Check(t, func(rt *rapid.T) {
 		c := genC01(rt)
+		r.Begin(c)
 		f, stats := checkC01(c)
 		nt := false
 		var cl []string
